@@ -92,6 +92,45 @@ func lenArg(v ssa.Value) (ssa.Value, bool) {
 	return call.Common().Args[0], true
 }
 
+// lenKey: the key of the collection whose length v is — len(X), or a call of a module accessor whose every return is
+// the length of a collection reached from one of its parameters (func (p *path) numSegments() int { return len(p.p) }).
+func lenKey(v ssa.Value) (string, bool) {
+	if v == nil {
+		return "", false
+	}
+	if x, ok := lenArg(v); ok {
+		return collKey(x), true
+	}
+	call, ok := v.(*ssa.Call)
+	if !ok {
+		return "", false
+	}
+	g := call.Common().StaticCallee()
+	if g == nil || len(g.Blocks) == 0 || len(g.Blocks) > 2 || g.Signature.Results().Len() != 1 || !isIntType(g.Signature.Results().At(0).Type()) {
+		return "", false
+	}
+	key := ""
+	for _, b := range g.Blocks {
+		r, ok := b.Instrs[len(b.Instrs)-1].(*ssa.Return)
+		if !ok {
+			continue
+		}
+		x, ok := lenArg(r.Results[0])
+		if !ok {
+			return "", false
+		}
+		k := collKey(x)
+		if !strings.HasPrefix(k, "P:") || (key != "" && k != key) {
+			return "", false
+		}
+		key = k
+	}
+	if key == "" {
+		return "", false
+	}
+	return substKey(key, g, call.Common().Args)
+}
+
 // collKey is the canonical key of a collection-valued expression: an SSA register, or a chain of field loads.
 func collKey(v ssa.Value) string {
 	switch x := v.(type) {
@@ -128,6 +167,7 @@ func keyFields(key string) []string {
 }
 
 type pfFacts struct {
+	ctx    *Ctx                         // for interprocedural bounds (parameters, results of module helpers)
 	lenNE  map[string][]int64           // len(key) ≠ c
 	origin map[string][]*ssa.BasicBlock // blocks whose branches established facts about key
 	cur    *ssa.BasicBlock
@@ -205,11 +245,10 @@ func (p *pfFacts) addRel(a ssa.Value, rel token.Token, b ssa.Value) {
 	// len on the left
 	for pass := 0; pass < 2; pass++ {
 		if ta.base != nil {
-			if x, ok := lenArg(ta.base); ok {
-				key := collKey(x)
+			if key, ok := lenKey(ta.base); ok {
 				// len(K) + ta.k REL tb   =>   len(K) REL tb - ta.k
 				t := term{tb.base, tb.k - ta.k}
-				if _, isLen := lenArg(tb.base); !(tb.base != nil && isLen) {
+				if _, isLen := lenKey(tb.base); !(tb.base != nil && isLen) {
 					p.note(key)
 					if rel == token.NEQ && t.base == nil {
 						p.lenNE[key] = append(p.lenNE[key], t.k)
@@ -416,12 +455,27 @@ func (p *pfFacts) absorb(c *Ctx, facts []condFact, depth int) {
 			}
 			sub := newPFFacts()
 			sub.absorb(c, inner, depth+1)
+			// a term over one of the predicate's parameters becomes a term over the argument
+			mapTerm := func(t term) (term, bool) {
+				if t.base == nil {
+					return t, true
+				}
+				if pp, ok := t.base.(*ssa.Parameter); ok && pp.Parent() == cl {
+					for i, q := range cl.Params {
+						if q == pp && i < len(x.Common().Args) {
+							at := termOf(x.Common().Args[i])
+							return term{at.base, at.k + t.k}, true
+						}
+					}
+				}
+				return t, false
+			}
 			for k, ts := range sub.lenGE {
 				if nk, ok := substKey(k, cl, x.Common().Args); ok {
 					for _, t := range ts {
-						if t.base == nil {
+						if mt, ok := mapTerm(t); ok {
 							p.note(nk)
-							p.lenGE[nk] = append(p.lenGE[nk], t)
+							p.lenGE[nk] = append(p.lenGE[nk], mt)
 						}
 					}
 				}
@@ -460,6 +514,10 @@ func lowerBound(v ssa.Value, facts *pfFacts, seen map[ssa.Value]bool) (int64, bo
 	switch x := v.(type) {
 	case *ssa.Const:
 		return constInt(x)
+	case *ssa.Parameter:
+		if facts != nil && facts.ctx != nil && isIntType(x.Type()) {
+			return paramLowerBound(facts.ctx, x)
+		}
 	case *ssa.Convert:
 		if isIntType(x.Type()) && isIntType(x.X.Type()) {
 			if b, ok := x.X.Type().Underlying().(*types.Basic); ok && b.Info()&types.IsUnsigned != 0 {
@@ -470,7 +528,7 @@ func lowerBound(v ssa.Value, facts *pfFacts, seen map[ssa.Value]bool) (int64, bo
 		// conversion from an unsigned/byte source
 		return 0, false
 	case *ssa.Call:
-		if _, ok := lenArg(x); ok {
+		if _, ok := lenKey(x); ok {
 			return 0, true
 		}
 		if lo, _, ok := apiRange(x); ok {
@@ -478,6 +536,11 @@ func lowerBound(v ssa.Value, facts *pfFacts, seen map[ssa.Value]bool) (int64, bo
 		}
 		if _, ok := indexAPI(x); ok {
 			return -1, true
+		}
+		if facts != nil && facts.ctx != nil {
+			if _, ok := indexLikeResult(facts.ctx, x); ok {
+				return -1, true
+			}
 		}
 		if args, ok := minLikeArgs(x); ok {
 			best, have := int64(0), false
@@ -625,7 +688,7 @@ func (p *pfFacts) lenAtLeast(key string, want term) bool {
 	}
 	// want = len(key') + k with k ≤ 0 and same key
 	if want.base != nil {
-		if x, ok := lenArg(want.base); ok && collKey(x) == key && want.k <= 0 {
+		if lk, ok := lenKey(want.base); ok && lk == key && want.k <= 0 {
 			return true
 		}
 		// want.base ≤ c known
@@ -648,8 +711,8 @@ func phiUpperLen(phi *ssa.Phi, key string) (int64, bool) {
 			}
 			continue
 		}
-		x, ok := lenArg(t.base)
-		if t.base == nil || !ok || collKey(x) != key {
+		lk, ok := lenKey(t.base)
+		if t.base == nil || !ok || lk != key {
 			return 0, false
 		}
 		if !have || t.k > best {
@@ -925,6 +988,231 @@ func reachesBlock(f *ssa.Function, target *ssa.BasicBlock) map[*ssa.BasicBlock]b
 
 // dischargeIndex tries every idiom; returns the class and the deciding fact.
 func dischargeIndex(c *Ctx, s *indexSite) (string, string, bool) {
+	cls, fact, ok := dischargeIndexWith(c, s, 0)
+	if ok {
+		return cls, fact, ok
+	}
+	// what every caller guarantees about the length of the collection (unexported, statically called functions only)
+	if n, why := inheritedLen(c, s.Fn, s, 0); n > 0 {
+		if cls2, fact2, ok2 := dischargeIndexWith(c, s, n); ok2 {
+			return cls2, fact2 + " (" + why + ")", true
+		}
+	}
+	return cls, fact, ok
+}
+
+// typeInvariantLen: reviewed invariants attached to a type rather than to one expression (tables/index.json,
+// "type_invariants"): for the named struct type, whenever its (only) bool field is known true — by a direct test or
+// through a method that returns it — its (only) slice field has at least min_len elements.
+func typeInvariantLen(c *Ctx, x ssa.Value, facts []condFact) (int64, string) {
+	ld, ok := x.(*ssa.UnOp)
+	if !ok || ld.Op != token.MUL {
+		return 0, ""
+	}
+	fa, ok := ld.X.(*ssa.FieldAddr)
+	if !ok {
+		return 0, ""
+	}
+	tn := namedOf(fa.X.Type())
+	for _, ti := range loadIndexTable(c).TypeInvariants {
+		if ti.Type != tn {
+			continue
+		}
+		st, ok := structOf(fa.X.Type())
+		if !ok {
+			continue
+		}
+		sliceIdx, boolIdx, ns, nb := -1, -1, 0, 0
+		for i := 0; i < st.NumFields(); i++ {
+			switch u := st.Field(i).Type().Underlying().(type) {
+			case *types.Slice:
+				sliceIdx = i
+				ns++
+			case *types.Basic:
+				if u.Kind() == types.Bool {
+					boolIdx = i
+					nb++
+				}
+			}
+		}
+		if ns != 1 || nb != 1 || fa.Field != sliceIdx {
+			continue
+		}
+		for _, f := range facts {
+			if !f.Val {
+				continue
+			}
+			// direct: *(&R.boolField)
+			if l2, ok := f.Cond.(*ssa.UnOp); ok && l2.Op == token.MUL {
+				if fb, ok := l2.X.(*ssa.FieldAddr); ok && fb.Field == boolIdx && fb.X == fa.X {
+					return ti.MinLen, "type invariant of " + tn + ": " + ti.Invariant
+				}
+			}
+			// through a method of the type that returns the field
+			if call, ok := f.Cond.(*ssa.Call); ok {
+				cl := call.Common().StaticCallee()
+				if cl != nil && len(call.Common().Args) == 1 && sameObject(call.Common().Args[0], fa.X) && returnsOwnField(cl, boolIdx) {
+					return ti.MinLen, "type invariant of " + tn + ": " + ti.Invariant
+				}
+			}
+		}
+	}
+	return 0, ""
+}
+
+func structOf(t types.Type) (*types.Struct, bool) {
+	if p, ok := t.Underlying().(*types.Pointer); ok {
+		t = p.Elem()
+	}
+	st, ok := t.Underlying().(*types.Struct)
+	return st, ok
+}
+
+// sameObject: the same SSA value, or two loads of the same field of the same object with no way to tell them apart.
+func sameObject(a, b ssa.Value) bool {
+	if a == b {
+		return true
+	}
+	return sameLoad(a, b)
+}
+
+// returnsOwnField: a method whose every return is the load of the given field of its receiver.
+func returnsOwnField(f *ssa.Function, field int) bool {
+	if len(f.Blocks) == 0 || len(f.Params) != 1 {
+		return false
+	}
+	n := 0
+	for _, b := range f.Blocks {
+		r, ok := b.Instrs[len(b.Instrs)-1].(*ssa.Return)
+		if !ok {
+			continue
+		}
+		n++
+		if len(r.Results) != 1 {
+			return false
+		}
+		ld, ok := r.Results[0].(*ssa.UnOp)
+		if !ok || ld.Op != token.MUL {
+			return false
+		}
+		fa, ok := ld.X.(*ssa.FieldAddr)
+		if !ok || fa.Field != field || fa.X != ssa.Value(f.Params[0]) {
+			return false
+		}
+	}
+	return n > 0
+}
+
+// inheritedLen: the largest constant n such that len(collection) ≥ n holds at every call site of f (for a collection
+// reached from a parameter), with no write to the collection's fields between the callers' guards and the use.
+func inheritedLen(c *Ctx, f *ssa.Function, s *indexSite, depth int) (int64, string) {
+	key := collKey(s.X)
+	if !strings.HasPrefix(key, "P:") || depth > 1 {
+		return 0, ""
+	}
+	ix := sitesOf(c)
+	if f.Parent() != nil || ix.taken[f] || len(ix.sites[f]) == 0 || (f.Object() != nil && f.Object().Exported()) {
+		return 0, ""
+	}
+	// nothing in f writes the fields between entry and the use
+	if w, _ := writesBetween(c, f, key, s.Ins, []*ssa.BasicBlock{f.Blocks[0]}); w {
+		return 0, ""
+	}
+	best := int64(-1)
+	for _, cs := range ix.sites[f] {
+		ff := Facts(c, cs.Fn)
+		if !ff.Reachable(cs.Call.Block()) {
+			continue
+		}
+		ckey, ok := substKey(key, f, cs.Call.Common().Args)
+		if !ok {
+			return 0, ""
+		}
+		at := ff.At(cs.Call.Block())
+		facts := newPFFacts()
+		facts.absorb(c, at, 0)
+		n := int64(0)
+		for _, t := range facts.lenGE[ckey] {
+			if t.base == nil && t.k > n {
+				n = t.k
+			}
+		}
+		// the type invariant, seen from the caller
+		for i, p := range f.Params {
+			root := "P:" + p.Name()
+			if strings.HasPrefix(key, root+".") && i < len(cs.Call.Common().Args) {
+				if ld, ok := s.X.(*ssa.UnOp); ok {
+					if fa, ok := ld.X.(*ssa.FieldAddr); ok && fa.X == ssa.Value(p) {
+						if m, _ := typeInvariantLenFor(c, cs.Call.Common().Args[i], fa.Field, at); m > n {
+							n = m
+						}
+					}
+				}
+			}
+		}
+		if n > 0 {
+			if w, _ := writesBetween(c, cs.Fn, ckey, cs.Call, facts.origin[ckey]); w {
+				n = 0
+			}
+		}
+		if best < 0 || n < best {
+			best = n
+		}
+	}
+	if best <= 0 {
+		return 0, ""
+	}
+	return best, fmt.Sprintf("len ≥ %d at each of the %d call sites", best, len(ix.sites[f]))
+}
+
+// typeInvariantLenFor: like typeInvariantLen, for the slice field `field` of the object `obj` (a pointer value).
+func typeInvariantLenFor(c *Ctx, obj ssa.Value, field int, facts []condFact) (int64, string) {
+	tn := namedOf(obj.Type())
+	for _, ti := range loadIndexTable(c).TypeInvariants {
+		if ti.Type != tn {
+			continue
+		}
+		st, ok := structOf(obj.Type())
+		if !ok {
+			continue
+		}
+		boolIdx, nb, ns, sliceIdx := -1, 0, 0, -1
+		for i := 0; i < st.NumFields(); i++ {
+			switch u := st.Field(i).Type().Underlying().(type) {
+			case *types.Slice:
+				sliceIdx = i
+				ns++
+			case *types.Basic:
+				if u.Kind() == types.Bool {
+					boolIdx = i
+					nb++
+				}
+			}
+		}
+		if ns != 1 || nb != 1 || sliceIdx != field {
+			continue
+		}
+		for _, f := range facts {
+			if !f.Val {
+				continue
+			}
+			if l2, ok := f.Cond.(*ssa.UnOp); ok && l2.Op == token.MUL {
+				if fb, ok := l2.X.(*ssa.FieldAddr); ok && fb.Field == boolIdx && sameObject(fb.X, obj) {
+					return ti.MinLen, ti.Invariant
+				}
+			}
+			if call, ok := f.Cond.(*ssa.Call); ok {
+				cl := call.Common().StaticCallee()
+				if cl != nil && len(call.Common().Args) == 1 && sameObject(call.Common().Args[0], obj) && returnsOwnField(cl, boolIdx) {
+					return ti.MinLen, ti.Invariant
+				}
+			}
+		}
+	}
+	return 0, ""
+}
+
+func dischargeIndexWith(c *Ctx, s *indexSite, inherited int64) (string, string, bool) {
 	f := s.Fn
 	ff := Facts(c, f)
 	b := s.Ins.Block()
@@ -935,8 +1223,15 @@ func dischargeIndex(c *Ctx, s *indexSite) (string, string, bool) {
 		return "I2", "compiler-generated element access of a range loop", true
 	}
 	facts := newPFFacts()
+	facts.ctx = c
 	facts.absorb(c, ff.At(b), 0)
 	key := collKey(s.X)
+	if inherited > 0 {
+		facts.lenGE[key] = append(facts.lenGE[key], term{nil, inherited})
+	}
+	if n, _ := typeInvariantLen(c, s.X, ff.At(b)); n > 0 {
+		facts.lenGE[key] = append(facts.lenGE[key], term{nil, n})
+	}
 	checkKey := func() (bool, string) {
 		if w, why := writesBetween(c, f, key, s.Ins, facts.origin[key]); w {
 			return false, why
@@ -971,6 +1266,9 @@ func dischargeIndex(c *Ctx, s *indexSite) (string, string, bool) {
 			if subj, ok := indexAPI(call); ok && subj == s.X && want.k <= 1 {
 				return true
 			}
+			if subj, ok := indexLikeResult(c, call); ok && subj == s.X && want.k <= 1 {
+				return true
+			}
 			// min(a, b) ≤ a and ≤ b: enough that one argument is within the length
 			if args, ok := minLikeArgs(call); ok && lenGEDepth < 3 {
 				lenGEDepth++
@@ -981,6 +1279,28 @@ func dischargeIndex(c *Ctx, s *indexSite) (string, string, bool) {
 						return true
 					}
 				}
+			}
+		}
+		// a merge of search results over the same subject (i := find(xs, 0); …; i = find(xs, i+1))
+		if phi, ok := want.base.(*ssa.Phi); ok && want.k <= 1 && len(phi.Edges) > 0 {
+			all := true
+			for _, e := range phi.Edges {
+				ec, isCall := e.(*ssa.Call)
+				if !isCall {
+					all = false
+					break
+				}
+				subj, ok1 := indexAPI(ec)
+				if !ok1 {
+					subj, ok1 = indexLikeResult(c, ec)
+				}
+				if !ok1 || subj != s.X {
+					all = false
+					break
+				}
+			}
+			if all {
+				return true
 			}
 		}
 		// API fact: i := strings.Index(S, sep), i ≥ 0  ⇒  i + len(sep) ≤ len(S)
@@ -1045,7 +1365,7 @@ func dischargeIndex(c *Ctx, s *indexSite) (string, string, bool) {
 		}
 		if !lowOK && t.base != nil {
 			// index = len(K) + k with k < 0: non-negative iff len(K) ≥ -k
-			if x, ok := lenArg(t.base); ok && collKey(x) == key && t.k < 0 {
+			if lk, ok := lenKey(t.base); ok && lk == key && t.k < 0 {
 				if lenGE(term{nil, -t.k}) {
 					if !hasStatic {
 						if ok, why := checkKey(); !ok {
@@ -1083,7 +1403,7 @@ func dischargeIndex(c *Ctx, s *indexSite) (string, string, bool) {
 			}
 			if lo.base != nil && !nonNeg(s.Low) {
 				// lo = len(X)+k handled below
-				if x, ok := lenArg(lo.base); !(ok && collKey(x) == key) {
+				if lk, ok := lenKey(lo.base); !(ok && lk == key) {
 					return "", "low bound not known to be non-negative", false
 				}
 			}
@@ -1122,7 +1442,7 @@ func dischargeIndex(c *Ctx, s *indexSite) (string, string, bool) {
 			loHi = lo.k <= hi.k
 		case lo.base == nil && hi.base != nil:
 			// const ≤ len(X)+k  or const ≤ value with lower bound
-			if x, ok := lenArg(hi.base); ok && collKey(x) == key {
+			if lk, ok := lenKey(hi.base); ok && lk == key {
 				loHi = lenGE(term{nil, lo.k - hi.k})
 			} else if l, ok := lowerBound(s.High, facts, map[ssa.Value]bool{}); ok {
 				loHi = lo.k <= l
@@ -1130,7 +1450,7 @@ func dischargeIndex(c *Ctx, s *indexSite) (string, string, bool) {
 		}
 		if hi.base != nil {
 			if l, ok := lowerBound(s.High, facts, map[ssa.Value]bool{}); !ok || l < 0 {
-				if x, ok := lenArg(hi.base); !(ok && collKey(x) == key) {
+				if lk, ok := lenKey(hi.base); !(ok && lk == key) {
 					return "", "high bound not known to be non-negative", false
 				}
 			}
@@ -1280,6 +1600,113 @@ func minLikeArgs(call *ssa.Call) ([]ssa.Value, bool) {
 		return nil, false
 	}
 	return call.Common().Args, true
+}
+
+// paramLowerBound: a constant lower bound of an int parameter of an unexported function that is only ever called
+// statically — the smallest lower bound of the argument over all call sites (each with the branch facts there).
+var plbInProgress = map[*ssa.Parameter]bool{}
+
+func paramLowerBound(c *Ctx, p *ssa.Parameter) (int64, bool) {
+	f := p.Parent()
+	ix := sitesOf(c)
+	if f == nil || f.Parent() != nil || ix.taken[f] || len(ix.sites[f]) == 0 || (f.Object() != nil && f.Object().Exported()) {
+		return 0, false
+	}
+	if plbInProgress[p] || len(plbInProgress) > 3 {
+		return 0, false
+	}
+	plbInProgress[p] = true
+	defer delete(plbInProgress, p)
+	idx := -1
+	for i, q := range f.Params {
+		if q == p {
+			idx = i
+		}
+	}
+	best, have := int64(0), false
+	for _, cs := range ix.sites[f] {
+		ff := Facts(c, cs.Fn)
+		if !ff.Reachable(cs.Call.Block()) {
+			continue
+		}
+		if idx >= len(cs.Call.Common().Args) {
+			return 0, false
+		}
+		facts := newPFFacts()
+		facts.ctx = c
+		facts.absorb(c, ff.At(cs.Call.Block()), 0)
+		l, ok := lowerBound(cs.Call.Common().Args[idx], facts, map[ssa.Value]bool{})
+		if !ok {
+			return 0, false
+		}
+		if !have || l < best {
+			best, have = l, true
+		}
+	}
+	return best, have
+}
+
+// indexLikeResult: a module function whose int result is, on every return, a negative constant or a value known (by the
+// branch facts at that return) to be a valid index of one of its slice/string parameters; returns the argument that
+// parameter is bound to at this call.
+func indexLikeResult(c *Ctx, call *ssa.Call) (ssa.Value, bool) {
+	g := call.Common().StaticCallee()
+	if g == nil || !c.P.InModule(g) || len(g.Blocks) == 0 || g.Signature.Results().Len() != 1 || !isIntType(g.Signature.Results().At(0).Type()) {
+		return nil, false
+	}
+	type res struct {
+		idx int
+		ok  bool
+	}
+	r := c.Memo("indexlike:"+g.String(), func() interface{} {
+		ff := Facts(c, g)
+		subject := -1
+		nonneg := 0
+		for _, b := range g.Blocks {
+			ret, ok := b.Instrs[len(b.Instrs)-1].(*ssa.Return)
+			if !ok || !ff.Reachable(b) {
+				continue
+			}
+			v := ret.Results[0]
+			if k, ok := constInt(v); ok {
+				if k >= 0 {
+					return res{}
+				}
+				continue
+			}
+			facts := newPFFacts()
+			facts.absorb(c, ff.At(b), 0)
+			if l, ok := lowerBound(v, facts, map[ssa.Value]bool{}); !ok || l < -1 {
+				// a loop counter that starts at a parameter: fine as long as the callers pass non-negative values
+				facts.ctx = c
+				if l2, ok2 := lowerBound(v, facts, map[ssa.Value]bool{}); !ok2 || l2 < -1 {
+					return res{}
+				}
+			}
+			found := -1
+			for i, p := range g.Params {
+				key := "P:" + p.Name()
+				for _, t := range facts.lenGE[key] {
+					if t.base == v && t.k >= 1 {
+						found = i
+					}
+				}
+			}
+			if found < 0 || (subject >= 0 && subject != found) {
+				return res{}
+			}
+			subject = found
+			nonneg++
+		}
+		if subject < 0 || nonneg == 0 {
+			return res{}
+		}
+		return res{subject, true}
+	}).(res)
+	if !r.ok || r.idx >= len(call.Common().Args) {
+		return nil, false
+	}
+	return call.Common().Args[r.idx], true
 }
 
 // indexAPI: a strings/bytes search whose result r satisfies -1 ≤ r < len(subject); returns the subject.
